@@ -14,13 +14,22 @@ def prepare(seed, conf, pending="mixed", presteps=10):
         if d:
             g.rec.env(d); g.steps.append(d)
     g.rec.sync("-E"); g.steps.append("sync -E")
+    if pending == "holes":
+        # files are deleted and the deletion is synced, so that new files fit into the holes without growing the parity
+        for d in range(conf.nd):
+            fl = [f for f in g.files(d) if f != "zz"]
+            for f in fl[:max(1, len(fl) // 2)]:
+                g.a.remove(d, f); g.rec.env("delete %d/%s" % (d, f)); g.steps.append("delete %d/%s" % (d, f))
+        g.a.write_file(0, "TAIL", g.content(3), mtime=g.stamp()); g.rec.env("write 0/TAIL"); g.steps.append("write 0/TAIL")
+        g.a.clock += 10
+        g.rec.sync("-E"); g.steps.append("sync -E")
     n = 0
     while n < 3:
-        if pending == "adds":
+        if pending in ("adds", "holes"):
             # only new names
-            d = rng.randrange(conf.nd)
+            d = rng.randrange(conf.nd) if pending == "adds" else (1 + n) % conf.nd
             name = "N%d" % n
-            vals = g.content(rng.randint(1, 3))
+            vals = g.content(rng.randint(1, 3) if pending == "adds" else 1)
             g.a.write_file(d, name, vals, mtime=g.stamp())
             desc = "write %d/%s %r" % (d, name, vals)
         else:
@@ -42,15 +51,40 @@ def state_changing_calls(a, *flags):
         c.destroy()
 
 
-def experiment(g, rule, flags=(), lose=None, seed=0):
-    """one kill experiment on a clone; returns a Recorder-like record (lines etc.) and a description"""
+def _vals(hs):
+    out = []
+    for h in hs:
+        if h.startswith("v") and h[1:].isdigit():
+            out.append(int(h[1:]))
+        elif h.startswith("s") and h[1:].isdigit():
+            out.append(("s", int(h[1:])))
+        else:
+            return None
+    return out
+
+
+def experiment(g, rule, flags=(), lose=None, seed=0, restore=False):
+    """one kill experiment on a clone; returns a Recorder-like record (lines etc.) and a description.
+    restore: after the kill the user puts back (same bytes, same time stamp) the files whose deletion was pending"""
     c = g.a.clone()
     try:
         rec = recorder.Recorder(c, obs=g.rec.obs.clone_for(c))
         rec.vlen.update(g.rec.vlen); rec.names |= g.rec.names
         desc = ["base seed %s" % seed, "kill rule " + rule]
+        pre = g.rec.lines[-1]["state"]
         r = rec.sync_killed([rule], *flags)
         desc.append("sync killed rc=%s" % r.rc)
+        if restore:
+            back = []
+            for d in rec.D:
+                for n, f in pre["cf"][d].items():
+                    vals = _vals([b["h"] for b in f["bl"]])
+                    if n not in pre["fs"][d] and not os.path.lexists(c.path(int(d), n)) and vals is not None and f["mt"][0] >= 0 \
+                            and all(b["st"] == "BLK" for b in f["bl"]):
+                        c.write_file(int(d), n, vals, mtime=f["mt"][0], mtime_ns=f["mt"][1])
+                        back.append("%s/%s" % (d, n))
+            if back:
+                rec.env("restore " + " ".join(back)); desc.append("restore (same bytes and stamp) " + " ".join(back))
         c.clock += 10
         r2, out = rec.sync(*flags); desc.append("resume sync -> %s" % out["exit"])
         r3, out = rec.check(); desc.append("check -> %s" % out["exit"])
